@@ -357,7 +357,6 @@ func checkFinalFrom(res *lib.Result, c, imageSpec chainSpec, final *memory.Datab
 		return ok
 	}
 	if l := layoutOf(final, c.height()); strings.ContainsAny(l, "ob") {
-		_ = from
 		ok = false
 		res.Violate(lib.Violation{Sig: "blocktx-old-entries-left-after-migration",
 			What:   "old per-transaction entries remain after Migrate returned complete: " + l,
